@@ -158,12 +158,14 @@ def run_harness(ctx, exe, case_id, bufsize, script, extra_env=None, timeout=60):
     rfd = os.open(fifo, os.O_RDONLY | os.O_NONBLOCK)
     env = {"PATH": os.environ.get("PATH", "/usr/bin:/bin"), "UFTRACE_DIR": d, "UFTRACE_BUFFER": str(bufsize)}
     env.update(extra_env or {})
+    p = subprocess.Popen([exe], stdin=subprocess.PIPE, stdout=subprocess.PIPE, stderr=subprocess.PIPE, text=True, env=env)
     try:
-        p = subprocess.run([exe], input="\n".join(script) + "\n", stdout=subprocess.PIPE, stderr=subprocess.PIPE,
-                           text=True, env=env, timeout=timeout)
-        rc, out, err = p.returncode, p.stdout, p.stderr
+        out, err = p.communicate("\n".join(script) + "\n", timeout=timeout)
+        rc = p.returncode
     except subprocess.TimeoutExpired:
-        rc, out, err = -999, "", "TIMEOUT"
+        p.kill()
+        out, err = p.communicate()
+        rc, err = -999, (err or "") + "TIMEOUT"
     rest = b""
     while True:
         try:
@@ -178,9 +180,9 @@ def run_harness(ctx, exe, case_id, bufsize, script, extra_env=None, timeout=60):
     if lines and lines[-1] == "":
         lines.pop()
     sess = None
-    for l in lines:
-        if l.startswith("SESS "):
-            sess = l.split()[1] if len(l.split()) > 1 else None
+    for l in lines + (err or "").split("\n"):
+        if l.startswith("SESS ") and len(l.split()) > 1:
+            sess = l.split()[1]
     # messages the driver did not consume (SEGVSELF): find the session there
     msgs = parse_msgs(rest)
     for typ, payload in msgs:
